@@ -7,7 +7,7 @@
            whole I/O, writes, clear, overwrite) - emitted; with -simulate for longer ones.                      *)
 EXTENDS OutputGate, Json
 
-CONSTANTS Depth, SeqLevels, SeqFlags, SeqNames
+CONSTANTS Depth, SeqLevels, SeqFlags, SeqNames, SeqRewire
 VARIABLE hist
 hvars == <<vars, hist>>
 
@@ -28,7 +28,7 @@ AllNames == SectionMethods \cup IOMethods
 
 OnePlain == {"plain"}
 \* in the sequences the shape of a text is fixed by the position of the call (no further branching)
-ShapeAt(k) == <<"nl", "plain", "mid", "pad">>[(k % 4) + 1]
+ShapeAt(k) == <<"nl", "plain", "mid", "uni", "pad">>[(k % 5) + 1]
 
 HInit == Init /\ hist = <<>>
 BSpec == HInit /\ [][Next /\ UNCHANGED hist]_hvars
@@ -49,6 +49,7 @@ TSpec == HInit /\ [][TNext]_hvars
 HNext == /\ Len(hist) < Depth
          /\ \/ \E g \in Groups, q \in BOOLEAN : SetQuiet(g, q)
             \/ \E g \in Groups, v \in SeqLevels : SetVerbosity(g, v)
+            \/ \E g \in Groups : SeqRewire /\ obj.kind # "sections" /\ Rewire(g)
             \/ \E name \in SeqNames, o \in DOMAIN outs, f \in SeqFlags :
                   (RoleOf(obj.kind) = "io" => o = 1) /\ Write(name, o, f, ShapeAt(Len(hist)))
          /\ hist' = Append(hist, last')
